@@ -143,6 +143,21 @@ def forwarding(ctx, g: FuncInfo, target: FuncInfo, remap_ok: tuple = ()) -> list
     return sorted(set(problems))
 
 
+def _wrapped_is_plain(ctx, an: Anchors) -> bool:
+    """The context a component context wraps is never itself a component context: the
+    constructor unwraps (`if/while isinstance(c, ComponentContext): c = c.<wrapped>`) before
+    it stores the wrapped context."""
+    a = ctx.a
+    cinit = an.ComponentContext.methods["__init__"]
+    unwrap = [t for t in walk_own(cinit.node) if isinstance(t, (ast.If, ast.While)) and "isinstance" in ast.unparse(t.test) and an.ComponentContext.name in ast.unparse(t.test)]
+    unwraps_to_wrapped = any(isinstance(x, ast.Assign) and isinstance(x.value, ast.Attribute) and x.value.attr == an.wrapped_attr for t in unwrap for b in t.body for x in ast.walk(b)) or any(isinstance(t, ast.While) and "isinstance" in ast.unparse(t.test) and an.ComponentContext.name in ast.unparse(t.test) and any(isinstance(x, ast.Assign) and isinstance(x.value, ast.Attribute) and x.value.attr == an.wrapped_attr for b in t.body for x in ast.walk(b)) for t in walk_own(cinit.node))
+    cicfg = a.cfg(cinit)
+    wstores = [n for n in cicfg.live_nodes() if n.kind == "stmt" and isinstance(n.ast, (ast.Assign, ast.AnnAssign)) and getattr(n.ast, "value", None) is not None and any(self_attr(t) == an.wrapped_attr for t in (n.ast.targets if isinstance(n.ast, ast.Assign) else [n.ast.target]))]
+    utests = [t for t in cicfg.live_nodes() if t.kind == "test" and any(t.ast is u.test for u in unwrap)]
+    unwrap_first = bool(wstores) and bool(utests) and all(cicfg.dominates(utests[0].id, w_.id) for w_ in wstores)
+    return bool(unwrap) and unwraps_to_wrapped and unwrap_first
+
+
 def run(ctx) -> None:
     rep = ctx.rep
     a = ctx.a
@@ -295,11 +310,60 @@ def run(ctx) -> None:
     by_identity = [c for c in conds if any(isinstance(x, ast.Compare) and any(isinstance(o, (ast.Is, ast.IsNot)) for o in x.ops) and tparam in names_in(x) and not any(isinstance(k, ast.Constant) and k.value is None for k in x.comparators) for x in ast.walk(c))]
     rep.check("C02.R3", bool(by_value) and not by_identity, gr, (by_identity or conds or [gr.node])[0], "get_resources selects containers by the requested type (membership / equality, as the other lookups' dictionary keys do)", "get_resources does not filter by the requested type, or compares it by identity: equal but not identical types (list[int], Union[...]) are found by get_resource() but not listed by get_resources()")
 
+    # ... and by the type the entry is stored UNDER (its table key), which is what the other
+    # lookups hit.  The types recorded inside the container are not the same thing: generation
+    # stores a container only under those of its types that are still free (setdefault), so a
+    # container can name a (type, name) pair that belongs to another resource.
+    key_names: set = set()
+    val_names: set = set()
+    for lp in [x for x in walk_own(gr.node) if isinstance(x, (ast.For, ast.comprehension))]:
+        it = lp.iter
+        meth = it.func.attr if isinstance(it, ast.Call) and isinstance(it.func, ast.Attribute) else None
+        base = it.func.value if meth else it
+        if not (isinstance(base, ast.Attribute) and base.attr == an.resource_table):
+            continue
+        tg = lp.target
+        if meth == "items" and isinstance(tg, ast.Tuple) and len(tg.elts) == 2:
+            key_names |= names_in(tg.elts[0])
+            val_names |= names_in(tg.elts[1])
+        elif meth == "values":
+            val_names |= names_in(tg)
+        elif meth in ("keys", None):
+            key_names |= names_in(tg)
+    if key_names or val_names:
+        from .common import def_use_closure as _duc
+
+        def _side(c) -> str:
+            deps = set()
+            for x in ast.walk(c):
+                if isinstance(x, ast.Compare) and tparam in names_in(x):
+                    for part in [x.left] + list(x.comparators):
+                        if tparam not in names_in(part) or not isinstance(part, ast.Name):
+                            deps |= set(_duc(gr, part)) | names_in(part)
+            if deps & key_names and not (deps & val_names):
+                return "key"
+            if deps & val_names:
+                return "value"
+            return "?"
+
+        sides = [_side(c) for c in by_value]
+        partial_stores = any(m.kind == "call:setdefault" for f_ in (an.ctx_method("get_resource"), an.ctx_method("get_resource_nowait")) for _n, m in a.func_mutations(f_) if any(len(p_) >= 2 and p_[-1] == an.resource_table for p_ in expand_alias(f_, m.path)))
+        if "value" in sides and partial_stores:
+            bad_c = by_value[sides.index("value")]
+            rep.violate("C02.R3", gr, bad_c, f"get_resources selects entries by a field of the stored container (`{ast.unparse(bad_c)}`), not by the key they are stored under: a generated resource is stored only under those of its types that are still free, so it is listed under a (type, name) pair that get_resource() / get_resource_nowait() answer with another resource")
+        elif "key" in sides or not partial_stores:
+            rep.hold("C02.R3", gr, by_value[0] if by_value else gr.node, "get_resources selects entries by the type they are stored under (the table key), as the other lookups do")
+
     # every lookup path agrees on what is visible: the sync API never answers "not there" for
     # a resource the async API produces (shared with C04.R3)
     from .common import include_fn
 
     include_fn(ctx, c04.sync_async_agreement, "C02.R3", only=("C04.R3",))
+    # ... and injected parameters are just such lookups, made in the context current at call
+    # time (shared with C19.R1; c19 adopts C02.R3 in turn, hence the entry point without includes)
+    from . import c19
+
+    include_fn(ctx, lambda sub: c19.run(sub, skip_includes=True), "C02.R3", only=("C19.R1",))
 
     # ------------------------------------------------------------------ R4 one API, one implementation
     mod = an.Context.module
@@ -339,12 +403,7 @@ def run(ctx) -> None:
     # the wrapped context is the real (non-component) context current at construction
     cinit = an.ComponentContext.methods["__init__"]
     unwrap = [t for t in walk_own(cinit.node) if isinstance(t, (ast.If, ast.While)) and "isinstance" in ast.unparse(t.test) and an.ComponentContext.name in ast.unparse(t.test)]
-    unwraps_to_wrapped = any(isinstance(x, ast.Assign) and isinstance(x.value, ast.Attribute) and x.value.attr == an.wrapped_attr for t in unwrap for b in t.body for x in ast.walk(b)) or any(isinstance(t, ast.While) and "isinstance" in ast.unparse(t.test) and an.ComponentContext.name in ast.unparse(t.test) and any(isinstance(x, ast.Assign) and isinstance(x.value, ast.Attribute) and x.value.attr == an.wrapped_attr for b in t.body for x in ast.walk(b)) for t in walk_own(cinit.node))
-    cicfg = a.cfg(cinit)
-    wstores = [n for n in cicfg.live_nodes() if n.kind == "stmt" and isinstance(n.ast, (ast.Assign, ast.AnnAssign)) and getattr(n.ast, "value", None) is not None and any(self_attr(t) == an.wrapped_attr for t in (n.ast.targets if isinstance(n.ast, ast.Assign) else [n.ast.target]))]
-    utests = [t for t in cicfg.live_nodes() if t.kind == "test" and any(t.ast is u.test for u in unwrap)]
-    unwrap_first = bool(wstores) and bool(utests) and all(cicfg.dominates(utests[0].id, w_.id) for w_ in wstores)
-    rep.check("C02.R4", bool(unwrap) and unwraps_to_wrapped and unwrap_first, cinit, unwrap[0] if unwrap else cinit.node, "component contexts are unwrapped when choosing the context to delegate to", "a ComponentContext may delegate to another ComponentContext (which exits sooner)")
+    rep.check("C02.R4", _wrapped_is_plain(ctx, an), cinit, unwrap[0] if unwrap else cinit.node, "component contexts are unwrapped when choosing the context to delegate to", "a ComponentContext may delegate to another ComponentContext (which exits sooner)")
     # every resource-related Context method is overridden by ComponentContext (no table of its own is used)
     for name in ("add_resource", "add_resource_factory", "get_resource", "get_resource_nowait", "get_resources", "add_teardown_callback", "start_service_task", "start_background_task_factory"):
         rep.check("C02.R4", name in an.ComponentContext.methods, an.ComponentContext.methods.get(name), None, f"ComponentContext overrides {name}", f"ComponentContext does not override {name}: the call lands on the component context's own (empty, short-lived) tables")
@@ -420,6 +479,7 @@ def run(ctx) -> None:
                 d_ = dotted(e)
                 return d_ if d_ else None
 
+            wrapped_plain = _wrapped_is_plain(ctx, an)
             may: dict = {n.id: None for n in icfg.live_nodes()}  # node -> set of vars that may be a CC (None = unreached)
             may[icfg.entry] = set()
             work = [icfg.entry]
@@ -431,10 +491,12 @@ def run(ctx) -> None:
                     v = n.ast.value
                     if n.id in {x[0].id for x in sel}:
                         tainted = True
+                    elif isinstance(v, ast.Attribute) and v.attr == an.wrapped_attr and _var(v.value) is not None:
+                        # one hop out of a component context: a plain context iff component
+                        # contexts never wrap one another (C02.R4's unwrap at construction)
+                        tainted = _var(v.value) in inset and not wrapped_plain
                     elif _var(v) is not None:
                         tainted = _var(v) in inset
-                    elif isinstance(v, ast.Attribute) and v.attr == an.wrapped_attr and _var(v.value) is not None:
-                        tainted = _var(v.value) in inset
                     else:
                         tainted = False
                     for t_ in tgs:
